@@ -403,4 +403,53 @@ PROPS["C06"] = {
     },
 }
 
+PROPS["C12"] = {
+    "lean": ["TinkVerif.Props.C12"],
+    "theorems": ["TinkVerif.Wire.decVarint_enc", "TinkVerif.Wire.decVarint_canon", "TinkVerif.Wire.decField_enc",
+                 "TinkVerif.Wire.decode_encode", "TinkVerif.Wire.encode_decode", "TinkVerif.Keyset.handleOf_toKeyset"],
+    "harness": [{"name": "c12", "timeout": 3000}],
+    "rule": "for every registered key type × the grid of valid parameter combinations reachable through the public NewParameters "
+            "constructors × variants × ids {0, 2^32-1, random} × fresh key material: SerializeKey → ParseKey is Equal and re-serialises "
+            "byte-identically; the serialised key value and key template are decoded by the Lean strict wire decoder and re-encoded "
+            "byte-identically (canonical form) and the field dump is compared with the key's accessors; the same for parameters; "
+            "keysets through every writer/reader pair (binary, JSON, mem; cleartext, encrypted under several AEADs and associated data, "
+            "public-only): ids, statuses, primary, order compared, primitives of original and re-read handle interoperate, Public() maps "
+            "private keys to matching public keys; non-trivial = every line, distinct by line hash",
+    "trusted_base": [KERNEL, TIE, "google.golang.org/protobuf (wire and JSON codecs) is the implementation under comparison for the "
+                     "wire form; Equal and protobuf-JSON are exercised on the Go side only"],
+    "assumptions": ["per-key-type field mappings are tied by correspondence over the constructor grid, not proved"],
+    "manifest": {
+        "text": "Theorems: the protobuf wire codec model round-trips every well-formed message (any fields, any values) and its strict "
+                "decoder accepts only canonical encodings (parse then serialise is byte-identical); varint codec laws for all 64-bit "
+                "values; writing a well-formed handle's entries to a keyset message and reading it back preserves ids, statuses, primary "
+                "and order. Tie: every key type's serialisation decoded and re-encoded by the Lean codec, Go-side Equal / byte-identical "
+                "re-serialisation over the full parameter grid, all keyset writer/reader pairs.",
+        "design_ref": "DESIGN.md §5.12",
+        "note": "Trusted: Lean kernel; protobuf library as implementation; accessor dumps hand-written in the harness.",
+        "technique": "Lean 4 proof (wire codec round trip + canonicity, keyset↔entries) + Go/Lean byte-level correspondence over the key-type grid",
+    },
+}
+PROPS["C17"] = {
+    "lean": ["TinkVerif.Props.C17"],
+    "theorems": T("TinkVerif.Derive", "deriveKeyset_spec deriveKeyset_wf primaryId_spec material_prefix"),
+    "harness": [{"name": "c17", "timeout": 3000}],
+    "rule": "deriver keysets of 1..5 keys over every derivable key type (AES-GCM, XChaCha20-Poly1305, AES-SIV, HMAC, HKDF-PRF, HMAC-PRF, "
+            "Ed25519, AES-GCM-HKDF streaming) × variants × statuses × primary choice × PRF hash SHA256/SHA512 × PRF salts × key sizes; "
+            "salts empty/short/1 KiB; the derived handle (ids, statuses, primary, prefix types, key bytes via insecure access) is compared "
+            "with the Lean model (structure from the manager model, material from RFC 5869 over the reference hash); two derivations "
+            "compared for Equal; derived keys used as ordinary keys; non-trivial = every line, distinct by line hash",
+    "trusted_base": [KERNEL, TIE, PRIMS],
+    "assumptions": ["'different salts or PRF keys give different keys' is HKDF injectivity — cryptographic, exercised empirically"],
+    "manifest": {
+        "text": "Theorems for every well-formed deriver keyset of any size: DeriveKeyset (a composition of the keyset manager's own "
+                "operations, C11) succeeds and returns exactly one ENABLED key per ENABLED deriver key, in order, with the same key id and "
+                "primary designation, and the result is a well-formed handle; the key material is a prefix of the RFC 5869 stream "
+                "(C15's prefix law), so derivation is a function of (keyset, salt). Tie: derived handles of the real implementation "
+                "(structure and key bytes) vs the model over the reference HKDF.",
+        "design_ref": "DESIGN.md §5.17",
+        "note": "Trusted: Lean kernel; reference SHA; hand model tied by differential execution.",
+        "technique": "Lean 4 proof (structure preservation via the manager model) + Go/Lean derived-keyset correspondence",
+    },
+}
+
 NOT_BUILT = {}
